@@ -401,7 +401,7 @@ MonStep(m0, step, C) ==
       (* C15: the finalizer has run exactly once per subscription that was completed, failed or unsubscribed *)
       r6 == Flag(r5, o.fault = "" /\ o.cnt[CntFin] # CountTrue(r5.trig), "C15", checks)
       (* C13: building does no work; every subscription of a cold pipeline observes the same *)
-      norm == [i \in 1..Len(o.log) |-> <<o.log[i].p - m.np, o.log[i].t, o.log[i].v>>]
+      norm == [i \in 1..Len(o.log) |-> <<IF o.log[i].p = 0 THEN 0 ELSE o.log[i].p - m.np, o.log[i].t, o.log[i].v>>]
       delta == [i \in 1..NCnt |-> o.cnt[i] - m.lastcnt[i]]
       r7 == IF "C13" \notin checks \/ o.fault # "" THEN r6
             ELSE IF s.k = "build" THEN Flag(r6, o.log # <<>> \/ o.cnt # Cnt0, "C13", checks)
